@@ -6,3 +6,4 @@ import TV.Properties.C04
 #print axioms TV.C04.C04_workitems_exact
 #print axioms TV.C04.C04_no_deadlock
 #print axioms TV.C04.C04_internal_steps_terminate
+#print axioms TV.C04.C04_model_passes_monitor
